@@ -376,6 +376,21 @@ func VerifC10_Slow() {
 	}
 	// what the stalled consumer later finds is an in-order subsequence, at least its buffer's worth
 	sn := t.nodes[stalled]
+	// a Refilter on the stalled filtered subscription (its buffer may be full) must neither wedge
+	// it nor stop its cache from following the parent
+	if variant == 3 && paced && zzverif.NondetInt("refilter-stalled", 0, 1) == 1 {
+		g := symFilter{1}
+		zzverif.Assert(sn.refilt(g) == nil, "harness/refilter")
+		zzverif.Quiesce()
+		t.publish()
+		zzverif.Quiesce()
+		zzverif.Assert(sn.refilt(filter.Not(filter.All())) == nil, "C10/no-block/refilter-returns")
+		zzverif.Quiesce()
+		own := vListEnts(sn.sub.Cache(), "harness/own-list")
+		zzverif.Assert(vSameContent(own, vListEnts(t.pcache, "harness/parent-list")), "C10/cache-current/after-refilter")
+		zzverif.Reach("C10/refilter-stalled")
+		return
+	}
 	sn.drain()
 	want := m
 	if want > B {
